@@ -49,10 +49,13 @@ def parseMut (root : Str) (t : Str) : Option Mut :=
     else if k = "sa".toList then
       some (.setargs ((splitOnChar ',' a).filter (fun x => !x.isEmpty ∧ x ≠ ['-'])))
     else if k = "xi".toList then (parseNat? a).map .exit
+    else if k = "rt".toList then (parseNat? a).map .return_
     else if k = "ec".toList then some (.echo a)
     else none
   | [k] =>
     if k = "sf".toList then some .shift
+    else if k = "br".toList then some .break_
+    else if k = "co".toList then some .continue_
     else if k = "fa".toList then some .false_
     else if k = "tu".toList then some .true_
     else none
@@ -64,7 +67,17 @@ def parseCtx (s : Str) : Option Ctx :=
   else if s = "stages".toList then some .stages else if s = "bg".toList then some .bg
   else if s = "procsub".toList then some .procsub else if s = "coproc".toList then some .coproc
   else if s = "pl".toList then some .pl
-  else none
+  else match splitOnChar '-' s with
+    | [b, sy, fr] =>
+      if b = "bgw".toList then
+        match (if sy = "all".toList then some Sync.every else if sy = "spec".toList then some Sync.spec
+               else if sy = "spec2".toList then some Sync.spec2 else none),
+              (if fr = "plain".toList then some Frame.plain else if fr = "loop".toList then some Frame.loop
+               else if fr = "func".toList then some Frame.func else if fr = "errexit".toList then some Frame.errexit else none) with
+        | some x, some y => some (.bgw x y)
+        | _, _ => none
+      else none
+    | _ => none
 
 def textLines (ls : List Str) : Str := ls.flatMap (fun l => l ++ ['\n'])
 
@@ -81,6 +94,13 @@ def splitAtSep : List Str → List Str × List Str
   | [] => ([], [])
   | t :: r => if t = ['-', '-'] then ([], r) else let p := splitAtSep r; (t :: p.1, p.2)
 
+/-- what the context script records of `$?`: once, per loop iteration, or inside and after the function -/
+def showStatus (c : Ctx) (st : Nat) : Str :=
+  match c with
+  | .bgw _ .loop => "1:".toList ++ natToStr st ++ ",2:".toList ++ natToStr st
+  | .bgw _ .func => "in:".toList ++ natToStr st ++ ",after:0".toList
+  | _ => natToStr st
+
 def handle (toks : List Str) : Str :=
   match toks with
   | ctxTok :: rootTok :: rest =>
@@ -96,7 +116,7 @@ def handle (toks : List Str) : Str :=
         let changed := Comp.all.filter (fun c => compChanged c (prepare ctx r0.sh) a.shell)
         let leaked := Comp.all.filter (fun c => compChanged c (parentOwn rootP ctx sm r0.sh) a.shell)
         let isCv := ctx = .cmdsub || ctx = .backq
-        "st=".toList ++ (if a.aborted then "none".toList else natToStr a.status) ++
+        "st=".toList ++ (if a.aborted then "none".toList else showStatus ctx a.status) ++
         " sub=".toList ++ esc (if isCv then [] else textLines a.out) ++
         " par=".toList ++ esc (textLines (dump a.shell a.world)) ++
         " diff=".toList ++ (if changed.isEmpty then ['-'] else joinWith [','] (changed.map (fun c => c.field.toList))) ++
